@@ -722,3 +722,102 @@ func c14MemoryState(c *Ctx) error {
 	c.Info("memory_state", len(out))
 	return nil
 }
+
+// c14QueueGetters (seeded C14-Q): how the relay query, the gas-estimation query and
+// GetPendingValsetUpdates obtain the queue: the unbounded getter (count argument 0), and no slice
+// bound before the filter.  c14ReassignLoop (seeded C14-P): ReassignOrphanedMessages picks once per
+// stale message, with that message's requirements, at the top level of the per-message loop.
+func c14QueueGetters(c *Ctx) error {
+	ck, err := c.Parse("x/consensus/keeper/concensus_keeper.go")
+	if err != nil {
+		return err
+	}
+	var out []string
+	for _, fn := range []string{"GetPendingValsetUpdates", "GetMessagesForRelaying", "GetMessagesForGasEstimation"} {
+		fd := FindFunc(ck, "Keeper", fn)
+		if fd == nil {
+			return fmt.Errorf("%s not found", fn)
+		}
+		calls := Calls(fd.Body, "GetMessagesFromQueue")
+		if len(calls) != 1 || len(calls[0].Args) != 3 {
+			return fmt.Errorf("%s: expected exactly one GetMessagesFromQueue(ctx, queue, n) call", fn)
+		}
+		// slice expressions before the Filter call would bound what the filter sees
+		filterPos := token.Pos(0)
+		for _, ce := range Calls(fd.Body, "Filter") {
+			if filterPos == 0 || ce.Pos() < filterPos {
+				filterPos = ce.Pos()
+			}
+		}
+		if filterPos == 0 {
+			return fmt.Errorf("%s: slice.Filter call not found", fn)
+		}
+		bounded := false
+		ast.Inspect(fd.Body, func(n ast.Node) bool {
+			if se, ok := n.(*ast.SliceExpr); ok && se.Pos() < filterPos {
+				bounded = true
+			}
+			return true
+		})
+		out = append(out, fmt.Sprintf("%s: GetMessagesFromQueue(_, _, %s) sliced-before-filter=%v", fn, c.Src(calls[0].Args[2]), bounded))
+	}
+	// n == 0 means "all" in GetMessagesFromQueue / Queue.GetAll
+	gq := FindFunc(ck, "Keeper", "GetMessagesFromQueue")
+	if gq == nil {
+		return fmt.Errorf("GetMessagesFromQueue not found")
+	}
+	var bound []string
+	ast.Inspect(gq.Body, func(n ast.Node) bool {
+		if is, ok := n.(*ast.IfStmt); ok && strings.Contains(c.Src(is.Cond), "n") && strings.Contains(c.Src(is.Cond), "len(") {
+			bound = append(bound, c.Src(is.Cond))
+		}
+		return true
+	})
+	c.P("(* x/consensus/keeper/concensus_keeper.go: how the pollers read the queue *)")
+	c.P("Definition queue_getters : list string := %s.", CoqStrList(out))
+	c.P("Definition get_messages_from_queue_bound : list string := %s.", CoqStrList(bound))
+	c.Info("queue_getters", out)
+	return nil
+}
+
+func c14ReassignLoop(c *Ctx) error {
+	cl, err := c.Parse("x/consensus/keeper/cleanup.go")
+	if err != nil {
+		return err
+	}
+	fd := FindFunc(cl, "Keeper", "ReassignOrphanedMessages")
+	if fd == nil {
+		c.P("Definition reassign_loop_shape : list string := [].")
+		return nil
+	}
+	// the per-message loop: `for _, msg := range msgs`
+	var loop *ast.RangeStmt
+	ast.Inspect(fd.Body, func(n ast.Node) bool {
+		if rs, ok := n.(*ast.RangeStmt); ok && c.Src(rs.X) == "msgs" {
+			loop = rs
+		}
+		return true
+	})
+	if loop == nil {
+		return fmt.Errorf("ReassignOrphanedMessages: the loop over the stale messages was not recognised")
+	}
+	if n := len(Calls(fd.Body, "PickValidatorForMessage")); n != 1 {
+		return fmt.Errorf("ReassignOrphanedMessages: expected exactly one PickValidatorForMessage call, got %d", n)
+	}
+	var shape []string
+	for _, st := range loop.Body.List {
+		if as, ok := st.(*ast.AssignStmt); ok {
+			src := c.Src(as)
+			if strings.Contains(src, "deriveMessageRequirements") || strings.Contains(src, "PickValidatorForMessage") {
+				shape = append(shape, src)
+			}
+		}
+	}
+	if len(shape) != 2 {
+		return fmt.Errorf("ReassignOrphanedMessages: the requirements and the pick must be two top-level statements of the per-message loop (found %d): unknown shape", len(shape))
+	}
+	c.P("(* x/consensus/keeper/cleanup.go: the pick of ReassignOrphanedMessages, per stale message *)")
+	c.P("Definition reassign_loop_shape : list string := %s.", CoqStrList(shape))
+	c.Info("reassign_loop_shape", shape)
+	return nil
+}
